@@ -14,16 +14,14 @@ base domain accepts the program variables together with, for EVERY choice of one
 array, the value of that cell as the value of the array's summary variable.
 
 * `C14.smash_step_sound`: every operation of the history language satisfies `Step.Sound`
-  (History.lean) — `array_assign` only in its repaired form.
+  (History.lean).
 * `C14.smash_history_sound`: after any history every state of the collecting semantics is in `γ`.
-* `C14.smash_load_sound_Statement fixed`: the property for the functor with `array_assign` as coded
-  (`fixed = false`) or repaired (`fixed = true`).
-  - `C14.smash_load_sound` proves it for the repaired functor (all histories);
-  - `C14.smash_load_sound_partial` proves it for the code as it is, for histories without
-    `array_assign`;
-  - `C14.smash_load_sound_counterexample` refutes it for the code as it is: after
-    `array_init(a0,..,5); a1[0] := 7; array_assign(a0, a1); x := a0[0]` the base domain says x = 5.
+* `C14.smash_load_sound`: whatever history produced the abstract value, every value a concrete
+  load can return is a value the base domain allows for the loaded variable.
 * `C14.smash_never_bottom_on_reachable`.
+* `C14.smash_old_array_assign_counterexample`: the statement fails for `array_assign` as it was
+  before the repair (`Smash.aAssignOld`): after
+  `array_init(a0,..,5); a1[0] := 7; array_assign(a0, a1); x := a0[0]` the base domain says x = 5.
 
 ## Array adaptive (`array_adaptive.hpp`): the cell algebra only (partial)
 
@@ -31,26 +29,23 @@ array, the value of that cell as the value of the array's summary variable.
 or by marking as removed) and the offset-map part of a store at a constant offset.
 
 * `C14.adaptive_cells_cover`: after any sequence of constant-offset stores (any offsets and sizes,
-  both kill modes, `mk_cell` as coded or repaired) every live cell is the target of a store that
-  no later store overlaps — the ghost variable of a live cell holds exactly the last value written
-  to all its bytes, no stale cell survives a later overlapping write.
-* `C14.adaptive_written_cell_live_Statement revive`: the written cell is live after the store;
-  proved for the repaired `mk_cell` (`C14.adaptive_written_cell_live`), for the code as it is when
-  the map has no cell (o, size) marked as removed (`_partial`); refuted for the code as it is
-  (`_counterexample`: `mk_cell` returns the cell still marked as removed, so later overlap queries
-  do not see it).
+  both kill modes) every live cell is the target of a store that no later store overlaps — the
+  ghost variable of a live cell holds exactly the last value written to all its bytes.
+* `C14.adaptive_written_cell_live`: the written cell is live after the store.
+* `C14.adaptive_old_mk_cell_counterexample`: with `mk_cell` as it was before the repair
+  (`Cells.mkCellOld`) a store to a cell marked as removed leaves it marked as removed.
 Not covered by proof (tested only, mechanism R): the scan of `get_overlap_cells`, ghost naming,
-smashing decisions from the parameters, joins of offset maps, delegation to the base domain.
+smashing decisions from the parameters, the all-cells-known flag, joins of offset maps,
+delegation to the base domain.
 
 The strong-update flag is trusted only under the client contract (`singleCell`, part of the
 transition relation of a strong store); uniform element sizes per array are the function `esz`.
 -/
 open Crab Crab.Dom Crab.Dom.Arr Crab.Dom.Smash
 
-/-- Every operation satisfies its soundness law w.r.t. `γ`; `array_assign` in the repaired form. -/
-theorem C14.smash_step_sound (Bs : Base) (esz : Nat → Nat) (fixed : Bool) (op : Op)
-    (hok : fixed = true ∨ op.isArrayAssign = false) :
-    (op.toStep (Bs := Bs) esz fixed).Sound (γ esz) := by
+/-- Every operation satisfies its soundness law w.r.t. `γ`. -/
+theorem C14.smash_step_sound (Bs : Base) (esz : Nat → Nat) (op : Op) :
+    (op.toStep (Bs := Bs) esz).Sound (γ esz) := by
   cases op with
   | assign d x e =>
     intro st s s' hγ hr
@@ -78,10 +73,7 @@ theorem C14.smash_step_sound (Bs : Base) (esz : Nat → Nat) (fixed : Bool) (op 
     exact aStoreRange_sound a lb ub val hγ hr
   | aAssign d lhs rhs =>
     intro st s s' hγ hr
-    rcases hok with hf | hf
-    · subst hf
-      exact aAssign_fixed_sound lhs rhs hγ hr.1 hr.2
-    · simp [Op.isArrayAssign] at hf
+    exact aAssign_sound lhs rhs hγ hr.1 hr.2
   | join d p q =>
     intro a b s h
     exact sJoin_sound h
@@ -92,69 +84,47 @@ theorem C14.smash_step_sound (Bs : Base) (esz : Nat → Nat) (fixed : Bool) (op 
 
 /-- **History soundness of the smashing functor** for every base domain, pool, history length and
     interleaving of numeric operations, initialisations, strong (legal) / weak / range stores,
-    loads, array copies (repaired), joins, widenings and copies. -/
-theorem C14.smash_history_sound (Bs : Base) (esz : Nat → Nat) (fixed : Bool) (ops : List Op)
-    (hok : fixed = true ∨ ∀ op ∈ ops, op.isArrayAssign = false)
+    loads, array copies, joins, widenings and copies. -/
+theorem C14.smash_history_sound (Bs : Base) (esz : Nat → Nat) (ops : List Op)
     (p : Pool (St Bs)) (c : CPool CState) (h0 : ∀ i s, c i s → γ esz (p i) s) :
-    ∀ i s, collHist c (toHist (Bs := Bs) esz fixed ops) i s → γ esz (runHist p (toHist esz fixed ops) i) s := by
-  apply C03.history_sound (γ esz) (toHist esz fixed ops) _ p c h0
+    ∀ i s, collHist c (toHist (Bs := Bs) esz ops) i s → γ esz (runHist p (toHist esz ops) i) s := by
+  apply C03.history_sound (γ esz) (toHist esz ops) _ p c h0
   intro st hst
   simp only [toHist, List.mem_map] at hst
-  obtain ⟨op, hop, rfl⟩ := hst
-  exact C14.smash_step_sound Bs esz fixed op (hok.elim Or.inl (fun h => Or.inr (h op hop)))
+  obtain ⟨op, _, rfl⟩ := hst
+  exact C14.smash_step_sound Bs esz op
 
-/-- The property: whatever history produced the abstract value, a load `x := a[i]` executed on
-    any state of the collecting semantics yields a value that the base domain allows for `x`. -/
-def C14.smash_load_sound_Statement (fixed : Bool) : Prop :=
+/-- **C14 for array smashing**: whatever history produced the abstract value, a load `x := a[i]`
+    executed on any state of the collecting semantics yields a value that the base domain allows
+    for `x` — all histories, all base domains, all element sizes. -/
+theorem C14.smash_load_sound (Bs : Base) (esz : Nat → Nat) (ops : List Op)
+    (p : Pool (St Bs)) (c : CPool CState) (h0 : ∀ i s, c i s → γ esz (p i) s)
+    (d x a : Nat) (i : Lin) (s s' : CState)
+    (hs : collHist c (toHist (Bs := Bs) esz ops) d s) (hl : cLoad (esz a) x a i.eval s = some s') :
+    ValIn (runHist p (toHist esz (ops ++ [Op.aLoad d x a i])) d) x (s'.iv x) := by
+  have hcoll : collHist c (toHist (Bs := Bs) esz (ops ++ [Op.aLoad d x a i])) d s' := by
+    simp only [toHist, List.map_append, List.map_cons, List.map_nil, collHist, List.foldl_append,
+      List.foldl_cons, List.foldl_nil]
+    simp only [Op.toStep, Op.toStepWith, Step.coll, CPool.set, if_true]
+    exact ⟨s, hs, hl⟩
+  exact valIn_of_γ (C14.smash_history_sound Bs esz _ p c h0 d s' hcoll) x
+
+/-- Array operations never turn a value that some execution reaches into bottom. -/
+theorem C14.smash_never_bottom_on_reachable (Bs : Base) (esz : Nat → Nat) (ops : List Op)
+    (p : Pool (St Bs)) (c : CPool CState) (h0 : ∀ i s, c i s → γ esz (p i) s)
+    (d : Nat) (s : CState) (hs : collHist c (toHist (Bs := Bs) esz ops) d s) :
+    (runHist p (toHist esz ops) d).isBottom = false :=
+  not_bottom_of_γ (C14.smash_history_sound Bs esz ops p c h0 d s hs)
+
+/-! ### `array_assign` before the repair violated the statement (untracked right-hand side) -/
+
+/-- the statement of `C14.smash_load_sound` over the OLD `array_assign` (`Smash.aAssignOld`) -/
+def C14.smash_old_array_assign_Statement : Prop :=
   ∀ (Bs : Base) (esz : Nat → Nat) (ops : List Op) (p : Pool (St Bs)) (c : CPool CState),
     (∀ i s, c i s → γ esz (p i) s) →
     ∀ (d x a : Nat) (i : Lin) (s s' : CState),
-      collHist c (toHist (Bs := Bs) esz fixed ops) d s → cLoad (esz a) x a i.eval s = some s' →
-      ValIn (runHist p (toHist esz fixed (ops ++ [Op.aLoad d x a i])) d) x (s'.iv x)
-
-theorem C14.smash_load_sound_of_ok (Bs : Base) (esz : Nat → Nat) (fixed : Bool) (ops : List Op)
-    (hok : fixed = true ∨ ∀ op ∈ ops, op.isArrayAssign = false)
-    (p : Pool (St Bs)) (c : CPool CState) (h0 : ∀ i s, c i s → γ esz (p i) s)
-    (d x a : Nat) (i : Lin) (s s' : CState)
-    (hs : collHist c (toHist (Bs := Bs) esz fixed ops) d s) (hl : cLoad (esz a) x a i.eval s = some s') :
-    ValIn (runHist p (toHist esz fixed (ops ++ [Op.aLoad d x a i])) d) x (s'.iv x) := by
-  have hok' : fixed = true ∨ ∀ op ∈ ops ++ [Op.aLoad d x a i], op.isArrayAssign = false := by
-    rcases hok with h | h
-    · exact Or.inl h
-    · refine Or.inr (fun op hop => ?_)
-      rcases List.mem_append.1 hop with h1 | h1
-      · exact h op h1
-      · simp at h1; subst h1; rfl
-  have hcoll : collHist c (toHist (Bs := Bs) esz fixed (ops ++ [Op.aLoad d x a i])) d s' := by
-    simp only [toHist, List.map_append, List.map_cons, List.map_nil, collHist, List.foldl_append,
-      List.foldl_cons, List.foldl_nil]
-    simp only [Op.toStep, Step.coll, CPool.set, if_true]
-    exact ⟨s, hs, hl⟩
-  exact valIn_of_γ (C14.smash_history_sound Bs esz fixed _ hok' p c h0 d s' hcoll) x
-
-/-- **C14 for the repaired functor**: all histories, all base domains. -/
-theorem C14.smash_load_sound : C14.smash_load_sound_Statement true := by
-  intro Bs esz ops p c h0 d x a i s s' hs hl
-  exact C14.smash_load_sound_of_ok Bs esz true ops (Or.inl rfl) p c h0 d x a i s s' hs hl
-
-/-- **C14 for the code as it is**, for histories without `array_assign`. -/
-theorem C14.smash_load_sound_partial (Bs : Base) (esz : Nat → Nat) (ops : List Op)
-    (hno : ∀ op ∈ ops, op.isArrayAssign = false)
-    (p : Pool (St Bs)) (c : CPool CState) (h0 : ∀ i s, c i s → γ esz (p i) s)
-    (d x a : Nat) (i : Lin) (s s' : CState)
-    (hs : collHist c (toHist (Bs := Bs) esz false ops) d s) (hl : cLoad (esz a) x a i.eval s = some s') :
-    ValIn (runHist p (toHist esz false (ops ++ [Op.aLoad d x a i])) d) x (s'.iv x) :=
-  C14.smash_load_sound_of_ok Bs esz false ops (Or.inr hno) p c h0 d x a i s s' hs hl
-
-/-- Array operations never turn a value that some execution reaches into bottom. -/
-theorem C14.smash_never_bottom_on_reachable (Bs : Base) (esz : Nat → Nat) (fixed : Bool) (ops : List Op)
-    (hok : fixed = true ∨ ∀ op ∈ ops, op.isArrayAssign = false)
-    (p : Pool (St Bs)) (c : CPool CState) (h0 : ∀ i s, c i s → γ esz (p i) s)
-    (d : Nat) (s : CState) (hs : collHist c (toHist (Bs := Bs) esz fixed ops) d s) :
-    (runHist p (toHist esz fixed ops) d).isBottom = false :=
-  not_bottom_of_γ (C14.smash_history_sound Bs esz fixed ops hok p c h0 d s hs)
-
-/-! ### the code as it is violates the statement: `array_assign` from an untracked array -/
+      collHist c (toHistOld (Bs := Bs) esz ops) d s → cLoad (esz a) x a i.eval s = some s' →
+      ValIn (runHist p (toHistOld esz (ops ++ [Op.aLoad d x a i])) d) x (s'.iv x)
 
 namespace C14cex
 
@@ -286,12 +256,12 @@ def s4 : CState := s3.setVar 0 7
 end C14cex
 
 open C14cex in
-theorem C14.smash_load_sound_counterexample : ¬ C14.smash_load_sound_Statement false := by
+theorem C14.smash_old_array_assign_counterexample : ¬ C14.smash_old_array_assign_Statement := by
   intro h
   have hv := h cstBase (fun _ => 4) C14cex.ops (fun _ => St.top) (fun _ s => s = s0)
     (fun _ s _ => γ_top s) 0 0 0 (k 0) s3 s4
     (by
-      simp only [C14cex.ops, toHist, List.map_cons, List.map_nil, collHist, Op.toStep]
+      simp only [C14cex.ops, toHistOld, List.map_cons, List.map_nil, collHist, Op.toStepWith]
       simp only [List.foldl, Step.coll, CPool.set, if_true]
       refine ⟨s2, ⟨s1, ⟨s0, rfl, ?_⟩, ?_, ?_⟩, trivial, ?_⟩
       · rfl
@@ -305,16 +275,21 @@ theorem C14.smash_load_sound_counterexample : ¬ C14.smash_load_sound_Statement 
   rw [h5] at h7
   exact absurd h7 (by decide)
 
+/-- the same history with the repaired `array_assign`: the base domain no longer claims x = 5
+    (the summary of a0 is forgotten) -/
+example : (runHist (fun _ => (St.top : St C14cex.cstBase))
+      (toHist (fun _ => 4) (C14cex.ops ++ [Op.aLoad 0 0 0 (C14cex.k 0)])) 0).base (.prog 0) = none := by rfl
+
 /-- non-vacuity: the hypotheses of `smash_load_sound` are satisfiable with a non-trivial value:
     after `array_init(a0, 4, 0, 3, 5)` on the constants base, the load `x := a0[0]` is defined and
     the base domain says `x = 5` -/
 example : ValIn (runHist (fun _ => (St.top : St C14cex.cstBase))
-      (toHist (fun _ => 4) true [Op.aInit 0 0 (C14cex.k 0) (C14cex.k 3) (C14cex.k 5), Op.aLoad 0 0 0 (C14cex.k 0)]) 0) 0 5 :=
+      (toHist (fun _ => 4) [Op.aInit 0 0 (C14cex.k 0) (C14cex.k 3) (C14cex.k 5), Op.aLoad 0 0 0 (C14cex.k 0)]) 0) 0 5 :=
   C14.smash_load_sound C14cex.cstBase (fun _ => 4) [Op.aInit 0 0 (C14cex.k 0) (C14cex.k 3) (C14cex.k 5)]
     (fun _ => St.top) (fun _ s => s = C14cex.s0) (fun _ s _ => γ_top s) 0 0 0 (C14cex.k 0) C14cex.s1
     (C14cex.s1.setVar 0 5)
     (by
-      simp only [toHist, List.map_cons, List.map_nil, collHist, Op.toStep]
+      simp only [toHist, List.map_cons, List.map_nil, collHist, Op.toStep, Op.toStepWith]
       simp only [List.foldl, Step.coll, CPool.set, if_true]
       exact ⟨C14cex.s0, rfl, rfl⟩)
     (by rfl)
@@ -323,10 +298,9 @@ example : ValIn (runHist (fun _ => (St.top : St C14cex.cstBase))
 open Crab.Dom.Cells
 
 /-- **Cells cover**: every live cell of the offset map is the target of a store that no later
-    store overlaps (stores listed most recent first), for every kill mode and both versions of
-    `mk_cell`. -/
-theorem C14.adaptive_cells_cover (smashable revive : Bool) (hist : List (Int × Nat)) (c : Cell)
-    (h : c ∈ live (runStores smashable revive hist)) :
+    store overlaps (stores listed most recent first), for both kill modes. -/
+theorem C14.adaptive_cells_cover (smashable : Bool) (hist : List (Int × Nat)) (c : Cell)
+    (h : c ∈ live (runStores smashable hist)) :
     ∃ newer older, hist = newer ++ (c.off, c.size) :: older ∧
       ∀ s ∈ newer, rangesMeet c.off c.size s.1 s.2 = false := by
   induction hist with
@@ -343,23 +317,18 @@ theorem C14.adaptive_cells_cover (smashable revive : Bool) (hist : List (Int × 
       · subst h3; exact h2
       · exact hno t h3
 
-/-- the cell written by a constant-offset store is live afterwards -/
-def C14.adaptive_written_cell_live_Statement (revive : Bool) : Prop :=
+/-- the cell written by a constant-offset store is live afterwards (every map, both kill modes) -/
+theorem C14.adaptive_written_cell_live (smashable : Bool) (om : OMap) (o : Int) (sz : Nat) :
+    (⟨o, sz, false⟩ : Cell) ∈ live (storeConst smashable om o sz) :=
+  written_live
+
+/-- the same statement over `mk_cell` as it was before the repair (`Cells.mkCellOld`) -/
+def C14.adaptive_old_mk_cell_Statement : Prop :=
   ∀ (smashable : Bool) (om : OMap) (o : Int) (sz : Nat),
-    (⟨o, sz, false⟩ : Cell) ∈ live (storeConst smashable revive om o sz)
+    (⟨o, sz, false⟩ : Cell) ∈ live (storeConstOld smashable om o sz)
 
-/-- holds for the repaired `mk_cell` (a cell marked as removed is revived) -/
-theorem C14.adaptive_written_cell_live : C14.adaptive_written_cell_live_Statement true :=
-  fun _ _ _ _ => written_live (Or.inl rfl)
-
-/-- holds for the code as it is when no cell (o, size) of the map is marked as removed -/
-theorem C14.adaptive_written_cell_live_partial (smashable : Bool) (om : OMap) (o : Int) (sz : Nat)
-    (h : ∀ c ∈ om, c.hasKey o sz = true → c.removed = false) :
-    (⟨o, sz, false⟩ : Cell) ∈ live (storeConst smashable false om o sz) :=
-  written_live (Or.inr h)
-
-/-- the code as it is: a store to a cell marked as removed leaves it marked as removed -/
-theorem C14.adaptive_written_cell_live_counterexample : ¬ C14.adaptive_written_cell_live_Statement false := by
+/-- before the repair a store to a cell marked as removed left it marked as removed -/
+theorem C14.adaptive_old_mk_cell_counterexample : ¬ C14.adaptive_old_mk_cell_Statement := by
   intro h
   have := h true [⟨0, 4, true⟩] 0 4
   revert this
@@ -367,4 +336,4 @@ theorem C14.adaptive_written_cell_live_counterexample : ¬ C14.adaptive_written_
 
 /-- non-vacuity of `adaptive_cells_cover`: `a[0..3] := _; a[8..11] := _; a[2..5] := _` leaves the
     cells (8,4) and (2,4) live (erase mode) -/
-example : live (runStores false false [(2, 4), (8, 4), (0, 4)]) = [⟨2, 4, false⟩, ⟨8, 4, false⟩] := by decide
+example : live (runStores false [(2, 4), (8, 4), (0, 4)]) = [⟨2, 4, false⟩, ⟨8, 4, false⟩] := by decide
